@@ -23,8 +23,8 @@
    that the path tables are always well formed / the candidate stream always sorted (evaluated per molecule: pid_ok). *)
 From Coq Require Import ZArith List Bool Permutation.
 From Model Require Import PyBase Graph Rings RingsFilter RingsGen RingsGenSpec.
-From Gen Require Import RingsConsts.
-From Proofs Require Import RingsProofs RingsMcb RingsRank RingsExt RingsDim RingsFund RingsMin RingsHorton RingsSizes RingsIso RingsEquiv RingsFilterProofs RingsGenProofs RingsGenWalks RingsMarks RingsConstsProofs RingsCanon RingsRounds.
+From Gen Require Import RingsConsts RingsPidBody RingsCacheKeys.
+From Proofs Require Import RingsProofs RingsMcb RingsRank RingsExt RingsDim RingsFund RingsMin RingsHorton RingsSizes RingsIso RingsEquiv RingsFilterProofs RingsGenProofs RingsGenWalks RingsMarks RingsConstsProofs RingsCanon RingsRounds RingsPidTie RingsCsetTie RingsCacheTie RingsBfsFuel.
 Import ListNotations.
 Open Scope Z_scope.
 
@@ -649,3 +649,159 @@ Theorem C06_make_pid_rounds_last : forall paths,
   make_pid_rounds paths (length (keys (fst (fst (fold_left pid_init_step (sort_paths paths) ([], [], [])))))) = make_pid paths.
 Proof. exact make_pid_rounds_last. Qed.
 Print Assumptions C06_make_pid_rounds_last.
+
+(* ---- round 4: TIE BY TRANSLATION.  Gen.RingsPidBody is regenerated on every run from the statements of
+   chython/algorithms/rings.py:_make_pid (tools/gen_ringspid.py, ast, statement by statement, fail closed); the hand-written model
+   functions, about which C06_make_pid_walks / C06_c_set_cycles_sorted / the round-by-round correspondence speak, are EQUAL to the
+   translated ones for all arguments ---- *)
+
+(* the first loop (for c in chains): which table a chain is filed in, under which keys, and the distance bookkeeping *)
+Theorem C06_pid_init_step_translated : forall st c, gen_pid_init_step st c = pid_init_step st c.
+Proof. exact pid_init_step_translated. Qed.
+Print Assumptions C06_pid_init_step_translated.
+
+(* the innermost body (for j in pid1): the if / elif chain  ij - ikj == 1 | ij > ikj | ij == ikj | ikj - ij == 1 | else, in this
+   order, and what each branch stores in pid1 / pid2 / new_distances, in Python's evaluation order *)
+Theorem C06_pid_j_translated : forall k i dold st j, gen_pid_j k i dold st j = pid_j k i dold st j.
+Proof. exact pid_j_translated. Qed.
+Print Assumptions C06_pid_j_translated.
+
+Theorem C06_pid_i_translated : forall ks k dold st i, gen_pid_i ks k dold st i = pid_i ks k dold st i.
+Proof. exact pid_i_translated. Qed.
+Print Assumptions C06_pid_i_translated.
+
+Theorem C06_pid_k_translated : forall ks st k, gen_pid_k ks st k = pid_k ks st k.
+Proof. exact pid_k_translated. Qed.
+Print Assumptions C06_pid_k_translated.
+
+(* the whole function *)
+Theorem C06_make_pid_translated : forall paths, gen_make_pid paths = make_pid paths.
+Proof. exact make_pid_translated. Qed.
+Print Assumptions C06_make_pid_translated.
+
+Theorem C06_make_pid_translated_example :
+  gen_make_pid [[1; 2]; [1; 3]; [2; 3]] = make_pid [[1; 2]; [1; 3]; [2; 3]] /\
+  fst (fst (gen_make_pid [[1; 2]; [1; 3]; [2; 3]])) <> [].
+Proof. exact make_pid_translated_example. Qed.
+Print Assumptions C06_make_pid_translated_example.
+
+(* in the translated source the branch "a new shortest path" (the path through k is shorter by two or more) EMPTIES the
+   shortest+1 table of the pair: obsolete long paths cannot survive the round *)
+Theorem C06_new_shortest_resets_pid2 : forall k i j dold p1 p2 dn,
+  (j =? k) || (j =? i) = false ->
+  dist_get dold i j - (dist_get dold i k + dist_get dold k j) =? 1 = false ->
+  dist_get dold i k + dist_get dold k j <? dist_get dold i j = true ->
+  snd (fst (gen_pid_j k i dold (p1, p2, dn) j)) = set2 p2 i j [].
+Proof. exact new_shortest_resets_pid2. Qed.
+Print Assumptions C06_new_shortest_resets_pid2.
+
+(* ---- _c_set, translated the same way (second half of Gen.RingsPidBody) ---- *)
+
+(* which entries (c_num, p1ij, p2ij) a pair of atoms contributes: the chain  len(p1ij) == 1 (and `not p2ij`: nothing) | not p2ij | else,
+   with c_num = 2 * distance (+ 1 for the entries that carry the shortest+1 paths) *)
+Theorem C06_cset_j_translated : forall p2 d seen i row, flat_map (gen_cset_j p2 d seen i) row = cset_row p2 d seen i row.
+Proof. exact cset_j_translated. Qed.
+Print Assumptions C06_cset_j_translated.
+
+(* the second loop: parity test c_num % 2, the loop nests c1 x c2 / consecutive pairs, c1 + c2[-2:0:-1], the duplicate filter *)
+Theorem C06_rings_of_entry_translated : forall e, gen_rings_of_entry e = rings_of_entry e.
+Proof. exact rings_of_entry_translated. Qed.
+Print Assumptions C06_rings_of_entry_translated.
+
+Theorem C06_c_set_translated : forall pids, gen_c_set pids = c_set pids.
+Proof. exact c_set_translated. Qed.
+Print Assumptions C06_c_set_translated.
+
+(* candidate generation from the chains of _bfs on: translated source = model *)
+Theorem C06_candidate_generation_translated : forall paths, gen_c_set (gen_make_pid paths) = c_set (make_pid paths).
+Proof. intro paths. rewrite make_pid_translated. apply c_set_translated. Qed.
+Print Assumptions C06_candidate_generation_translated.
+
+Theorem C06_c_set_translated_example :
+  gen_c_set (gen_make_pid [[1; 2]; [1; 3]; [2; 3]]) = Ok [[1; 2; 3]; [1; 2; 3]; [1; 2; 3]].
+Proof. exact c_set_translated_example. Qed.
+Print Assumptions C06_c_set_translated_example.
+
+(* ---- the STATE clause: which cached views survive flush_cache / copy.  Gen.RingsCacheKeys is regenerated on every run from
+   MoleculeContainer.flush_cache and the cache part of MoleculeContainer.copy (tools/gen_ringscache.py); the cache is the
+   association list {attribute name: value} of the instance dictionary ---- *)
+
+(* after flush_cache(keep_sssr=ks, keep_components=kc) attribute k still has its value exactly when (ks and k is one of sssr,
+   atoms_rings, atoms_rings_sizes, not_special_connectivity, rings_count) or (kc and k is connected_components) *)
+Theorem C06_flush_cache_keeps : forall V ks kc (c : cache_t V) k, NoDup (map fst c) ->
+  cget V (gen_flush_cache V ks kc c) k =
+  if (ks && smem k ring_keys) || (kc && String.eqb components_key k) then cget V c k else None.
+Proof. exact flush_cache_keeps. Qed.
+Print Assumptions C06_flush_cache_keeps.
+
+Theorem C06_copy_cache_keeps : forall V ks kc (c : cache_t V) k, NoDup (map fst c) ->
+  cget V (gen_copy_cache V ks kc c) k =
+  if (ks && smem k ring_keys) || (kc && String.eqb components_key k) then cget V c k else None.
+Proof. exact copy_cache_keeps. Qed.
+Print Assumptions C06_copy_cache_keeps.
+
+(* the component list never survives a flush that does not ask for it, whatever keep_sssr says (the methods that add or delete
+   atoms -- remove_metals, implicify / explicify_hydrogens, remove_coordinate_bonds -- rely on this) *)
+Theorem C06_flush_cache_drops_components : forall V ks (c : cache_t V), NoDup (map fst c) ->
+  cget V (gen_flush_cache V ks false c) components_key = None.
+Proof. exact flush_cache_drops_components. Qed.
+Print Assumptions C06_flush_cache_drops_components.
+
+(* contract of a partial flush, for ANY notion of structure M and of "what attribute k evaluates to" (view): SOUND when the edit
+   m -> m' preserved the views the flags keep ... *)
+Theorem C06_flush_cache_sound : forall V M (view : String.string -> M -> V) ks kc m m' (c : cache_t V), NoDup (map fst c) ->
+  cache_valid V M view m c ->
+  (ks = true -> forall k, In k ring_keys -> view k m' = view k m) ->
+  (kc = true -> view components_key m' = view components_key m) ->
+  cache_valid V M view m' (gen_flush_cache V ks kc c).
+Proof. exact flush_cache_sound. Qed.
+Print Assumptions C06_flush_cache_sound.
+
+(* ... and STALE as soon as one kept, cached view changed (the shape of the recorded finding: remove_metals keeps
+   not_special_connectivity although it deletes atoms) *)
+Theorem C06_flush_cache_stale : forall V M (view : String.string -> M -> V) ks kc m m' (c : cache_t V) k, NoDup (map fst c) ->
+  cache_valid V M view m c ->
+  (ks && smem k ring_keys) || (kc && String.eqb components_key k) = true ->
+  cget V c k <> None -> view k m' <> view k m ->
+  ~ cache_valid V M view m' (gen_flush_cache V ks kc c).
+Proof. exact flush_cache_stale. Qed.
+Print Assumptions C06_flush_cache_stale.
+
+(* Proofs.RingsCacheTie.flush_cache_example_statement: a cache with every view and one other attribute, flushed with keep_sssr only,
+   keeps sssr / rings_count / not_special_connectivity; with keep_components only, the component list; copy(True, True) both *)
+Theorem C06_flush_cache_example : flush_cache_example_statement.
+Proof. exact flush_cache_example. Qed.
+Print Assumptions C06_flush_cache_example.
+
+(* ---- round 4, from observation to theorem: the fuel of the _bfs model is sufficient.  bfs_exhausts mirrors bfs_levels and is true
+   exactly when the run reaches the out-of-fuel case (Proofs.RingsBfsFuel) ---- *)
+
+(* a run that does not exhaust its fuel is not changed by more fuel *)
+Theorem C06_bfs_levels_more_fuel : forall g fuel atoms term stack o k, bfs_exhausts fuel g atoms term stack o = false ->
+  bfs_levels (fuel + k) g atoms term stack o = bfs_levels fuel g atoms term stack o.
+Proof. exact bfs_levels_more_fuel. Qed.
+Print Assumptions C06_bfs_levels_more_fuel.
+
+(* for every graph, atom set, front and oracle (right or wrong): more fuel than 2 * |atoms| + (0 if an atom of the front is still in
+   atoms, else 1) is never exhausted *)
+Theorem C06_bfs_levels_fuel_sufficient : forall g fuel atoms term stack o, (phi atoms stack < fuel)%nat ->
+  bfs_exhausts fuel g atoms term stack o = false.
+Proof. exact bfs_levels_fuel_sufficient. Qed.
+Print Assumptions C06_bfs_levels_fuel_sufficient.
+
+(* the model of _bfs never returns its artificial out-of-fuel error ... *)
+Theorem C06_bfs_paths_never_out_of_fuel : forall g o, bfs_paths_exhausts g o = false.
+Proof. exact bfs_paths_never_out_of_fuel. Qed.
+Print Assumptions C06_bfs_paths_never_out_of_fuel.
+
+(* ... and computes the same with any larger bound *)
+Theorem C06_bfs_paths_fuel_independent : forall g o k, bfs_paths_fuel (2 * length g + 2 + k) g o = bfs_paths g o.
+Proof. exact bfs_paths_fuel_independent. Qed.
+Print Assumptions C06_bfs_paths_fuel_independent.
+
+Theorem C06_bfs_fuel_example :
+  bfs_paths [(1, [2; 3]); (2, [1; 3]); (3, [1; 2])] [[1]; [2; 3]] = Ok [[1; 2; 3]; [1; 3]] /\
+  bfs_paths_exhausts [(1, [2; 3]); (2, [1; 3]); (3, [1; 2])] [[1]; [2; 3]] = false /\
+  bfs_exhausts 0 [(1, [2; 3]); (2, [1; 3]); (3, [1; 2])] [2; 3] [] [(2, [1; 2]); (3, [1; 3])] [] = true.
+Proof. exact bfs_fuel_example. Qed.
+Print Assumptions C06_bfs_fuel_example.
